@@ -264,6 +264,10 @@ func (pm *ProtocolManager) rcvBlockLoop() {
 				if pm.chain.HasBlock(b.ParentHash()) {
 					log.Infof("Got a block %s from peer: %#x", b.ShortString(), rcvMsg.p.NodeID()[:4])
 					if err := pm.insertBlock(b); err != nil {
+						if pm.chain.HasBlock(b.Hash()) {
+							// lost the race against a concurrent insert of the same block: not a verification failure
+							continue
+						}
 						log.Warnf("block verify failed. ignore the rest %d blocks", len(rcvMsg.blocks)-1-i)
 						break
 					}
